@@ -19,6 +19,8 @@ func scalarLattice(rOrder *big.Int, r *Rng, tier string, small bool) []*big.Int 
 	add := func(x *big.Int, d int64) *big.Int { return new(big.Int).Add(x, big.NewInt(d)) }
 	out := []*big.Int{big.NewInt(0), big.NewInt(1), big.NewInt(-1), big.NewInt(2), add(rOrder, -1), new(big.Int).Set(rOrder),
 		add(rOrder, 1), neg(rOrder), pow(256), add(pow(256), 5), r.Below(rOrder), neg(r.Below(rOrder))}
+	// word-aligned scalars (low 64-bit words zero)
+	out = append(out, neg(new(big.Int).Lsh(big.NewInt(3), 64)), new(big.Int).Lsh(big.NewInt(5), 128))
 	if !small {
 		out = append(out, pow(64), add(pow(128), -1), pow(255), add(new(big.Int).Mul(rOrder, big.NewInt(3)), 7), r.Big(600),
 			neg(add(pow(320), 1)), r.Below(pow(127)), add(pow(uint(rOrder.BitLen())), -1))
